@@ -1,5 +1,5 @@
 (* Dispatch entries for the emitter model (Graph/Steps.v, Graph/Emit.v). *)
-From BFG Require Import Base.Chars Base.Sx Graph.Steps Graph.Emit.
+From BFG Require Import Base.Chars Base.Sx Make.MakeSem Graph.Steps Graph.Emit Graph.EmitSem Graph.StampSem.
 From Coq Require Import String.
 Local Open Scope N_scope.
 
@@ -40,7 +40,23 @@ Definition un_script (x : sx) : script :=
 Definition un_cmdnodes (x : sx) : list (N * bool) :=
   List.map (fun p => (un_N (nth_sx 0 p), un_bool (nth_sx 1 p))) (un_list x).
 
+(* xrule: [target; prereqs; order-only; recipe; phony; also] *)
+Definition un_xrule (x : sx) : xrule :=
+  mkX (un_N (nth_sx 0 x)) (un_Ns (nth_sx 1 x)) (un_Ns (nth_sx 2 x)) (un_bool (nth_sx 3 x)) (un_bool (nth_sx 4 x))
+      (un_Ns (nth_sx 5 x)).
+Definition un_fsl (x : sx) : fs := fs_of (List.map (fun e => (un_N (nth_sx 0 e), un_N (nth_sx 1 e))) (un_list x)).
+
 Definition table : list (string * (sx -> sx)) := [
+  (* [rules; goals; fs; clk; ops]  ops: [0; 0] = make, [1; f] = touch f, [2; f] = delete f *)
+  ("stamp.session", fun a =>
+     sx_list (fun r => L [sx_list A (fst r); sx_bool (snd r)])
+       (run_session (List.map un_xrule (un_list (nth_sx 0 a))) (un_Ns (nth_sx 1 a)) (un_fsl (nth_sx 2 a))
+                    (un_N (nth_sx 3 a))
+                    (List.map (fun o => (un_N (nth_sx 0 o), un_N (nth_sx 1 o))) (un_list (nth_sx 4 a)))));
+  (* [steps; x] -> [simple for each step; script_down x steps] *)
+  ("emit.script_down", fun a =>
+     let steps := List.map un_step (un_list (nth_sx 0 a)) in
+     L [sx_list sx_bool (List.map simple steps); sx_list A (script_down (un_N (nth_sx 1 a)) steps)]);
   ("emit.make_step", fun a => sx_opt (sx_list sx_mrule) (emit_make_step (un_step (nth_sx 0 a))));
   ("emit.ninja_step", fun a =>
      let r := emit_ninja_step (un_bool (nth_sx 0 a)) (un_step (nth_sx 1 a)) in
